@@ -21,8 +21,10 @@
    * u64 `len` and u32 window indices are unbounded here (file sizes < 2^64,
      base + count <= 2^32; the overflow corner is C07's subject);
    * the whole of `append` runs under `self.writer.lock()`: the model is
-     sequential, a concurrent execution is the sequential run of its calls in
-     lock-acquisition order (stated assumption, see Proofs/Rolling.v). *)
+     sequential; Common/LockSerial.v + Proofs/RollingConc.v prove that any
+     schedule of threads whose calls are Acquire; <the micro-steps of
+     append_op>; Release equals the sequential run of the calls in
+     lock-acquisition order (the Mutex itself is modelled, not verified). *)
 From Coq Require Import List NArith Bool.
 Import ListNotations.
 From L4 Require Import Common.FSRoll.
